@@ -160,6 +160,46 @@ class AtomV(AV):
         return hash(("atom", self.name))
 
 
+class LinV(AV):
+    """Integer given as a linear form  c + sum k_i * h_i  over non-negative unknowns h_i (positions on an abstract line).
+    Sums/differences stay linear; a comparison is decided when the sign of the difference is the same for all h >= 0."""
+
+    __slots__ = ("c", "k")
+
+    def __init__(self, c: int, k: dict[str, int] | None = None) -> None:
+        self.c = c
+        self.k = {a: b for a, b in (k or {}).items() if b != 0}
+
+    def __repr__(self) -> str:
+        return "lin(" + str(self.c) + "".join(f"{'+' if v > 0 else '-'}{abs(v) if abs(v) != 1 else ''}{n}" for n, v in sorted(self.k.items())) + ")"
+
+    def __eq__(self, o: object) -> bool:
+        return isinstance(o, LinV) and self.c == o.c and self.k == o.k
+
+    def __hash__(self) -> int:
+        return hash(("lin", self.c, tuple(sorted(self.k.items()))))
+
+    def add(self, o: "LinV", sign: int = 1) -> "LinV":
+        k = dict(self.k)
+        for n, v in o.k.items():
+            k[n] = k.get(n, 0) + sign * v
+        return LinV(self.c + sign * o.c, k)
+
+    def sign_range(self) -> tuple[float, float]:
+        """Range of values over all h >= 0."""
+        lo = self.c if all(v >= 0 for v in self.k.values()) else -INF
+        hi = self.c if all(v <= 0 for v in self.k.values()) else INF
+        return lo, hi
+
+
+def as_lin(v: AV) -> "LinV | None":
+    if isinstance(v, LinV):
+        return v
+    if isinstance(v, Iv) and v.const and v.bounded:
+        return LinV(int(v.lo))
+    return None
+
+
 class SymV(AV):
     """Symbolic definition of an integer variable (side information for quotient/remainder patterns)."""
 
@@ -507,6 +547,8 @@ class Interp:
         if isinstance(e, ast.UnaryOp):
             v = self.ev(e.operand, st, fn, depth)
             if isinstance(e.op, ast.USub):
+                if isinstance(v, LinV):
+                    return LinV(0).add(v, -1)
                 if isinstance(v, Iv):
                     return iv_neg(v)
                 return self._dunder_un(e, v, st, fn, depth)
@@ -694,6 +736,12 @@ class Interp:
         op = e.op
         if self.on_binop is not None and (depth == 0 or self.hooks_all_depths):
             self.on_binop(e, a, b, st, fn)
+        if isinstance(a, LinV) or isinstance(b, LinV):
+            la, lb = as_lin(a), as_lin(b)
+            if la is not None and lb is not None and isinstance(op, (ast.Add, ast.Sub)):
+                return la.add(lb, 1 if isinstance(op, ast.Add) else -1)
+            self.escaped.append(f"non-linear use of a line position: {unparse(e)[:80]}")
+            return TOPINT
         if isinstance(a, AtomV) or isinstance(b, AtomV):
             if isinstance(a, AtomV) and isinstance(b, AtomV) and isinstance(op, ast.Sub) and a.name in self.ranks and b.name in self.ranks:
                 ra, rb = self.ranks[a.name], self.ranks[b.name]
@@ -990,6 +1038,13 @@ class Interp:
                 if n == "min":
                     return [(Iv(min(i.lo for i in ivs), min(i.hi for i in ivs), p), st)]
                 return [(Iv(max(i.lo for i in ivs), max(i.hi for i in ivs), p), st)]
+            if n == "len" and len(args) == 1 and isinstance(args[0], Obj):
+                lc = M.cls(args[0].tname, required=False)
+                lf = M.find_method(lc, "__len__") if lc is not None else None
+                if lf is not None:
+                    outs_len = self.inline(lf, [], {}, st, fn, depth, args[0], c, [], {})
+                    if outs_len:
+                        return outs_len
             if n == "len":
                 tbl = M.fold(c.args[0], fn.cls, fn.mod) if c.args else UNKNOWN
                 if tbl is not UNKNOWN and hasattr(tbl, "__len__"):
@@ -1390,6 +1445,27 @@ class Interp:
             return [st]
         if isinstance(a, Obj) and t in (ast.Lt, ast.LtE, ast.Gt, ast.GtE, ast.Eq, ast.NotEq) and not isinstance(b, NoneV):
             return self._obj_compare(l, op, r, a, b, st, fn, truth, depth)
+        if isinstance(a, LinV) or isinstance(b, LinV):
+            la, lb = as_lin(a), as_lin(b)
+            if la is not None and lb is not None and t in (ast.Lt, ast.LtE, ast.Gt, ast.GtE, ast.Eq, ast.NotEq):
+                lo, hi = la.add(lb, -1).sign_range()
+                res: bool | None = None
+                if t is ast.Lt:
+                    res = True if hi < 0 else (False if lo >= 0 else None)
+                elif t is ast.LtE:
+                    res = True if hi <= 0 else (False if lo > 0 else None)
+                elif t is ast.Gt:
+                    res = True if lo > 0 else (False if hi <= 0 else None)
+                elif t is ast.GtE:
+                    res = True if lo >= 0 else (False if hi < 0 else None)
+                elif t is ast.Eq:
+                    res = True if lo == hi == 0 else (False if lo > 0 or hi < 0 else None)
+                elif t is ast.NotEq:
+                    res = False if lo == hi == 0 else (True if lo > 0 or hi < 0 else None)
+                if res is not None:
+                    return [st] if res == truth else []
+            self.escaped.append(f"comparison of line positions not decided for all gaps: {unparse(l)[:40]} {type(op).__name__} {unparse(r)[:40]} ({a} vs {b})")
+            return [st]
         if isinstance(a, AtomV) or isinstance(b, AtomV):
             if isinstance(a, AtomV) and isinstance(b, AtomV) and a.name in self.ranks and b.name in self.ranks and t in (ast.Lt, ast.LtE, ast.Gt, ast.GtE, ast.Eq, ast.NotEq):
                 ra, rb = self.ranks[a.name], self.ranks[b.name]
